@@ -92,7 +92,7 @@ func (e *Engine) havocBase(st *State, elem types.Type, base *smt.Term) {
 
 var intrinsicNames = map[string]bool{"vAssume": true, "vAssert": true, "vRequires": true, "vEnsures": true, "vModifies": true,
 	"vNondet": true, "vOld": true, "vForall": true, "vInvariant": true, "vBody": true, "vStep": true, "vCallCount": true,
-	"vCallArg": true, "vSameSlice": true, "vFresh": true, "vSeparate": true, "vJoined": true, "vSame": true, "VSeparate": true, "vDistinctBacking": true, "vHavocRange": true, "vCallAnon": true, "vMkTime": true, "vTimeNanos": true, "vCallAnonErr": true, "vStringSeparate": true}
+	"vCallArg": true, "vSameSlice": true, "vFresh": true, "vSeparate": true, "vJoined": true, "vSame": true, "VSeparate": true, "vDistinctBacking": true, "vHavocRange": true, "vCallAnon": true, "vMkTime": true, "vTimeNanos": true, "vCallAnonErr": true, "vStringSeparate": true, "vCallAnonRes": true}
 
 func constString(v ssa.Value) string {
 	if c, ok := v.(*ssa.Const); ok && c.Value != nil && c.Value.Kind() == constant.String {
@@ -238,7 +238,7 @@ func (e *Engine) intrinsic(st *State, fn *ssa.Function, name string, args []Valu
 		_, out := e.callValue(st, args[0], nil, args[0].T.Underlying().(*types.Signature), pos)
 		e.paths = saveP
 		return nil, out, true
-	case "vCallAnonErr":
+	case "vCallAnonErr", "vCallAnonRes":
 		// like vCallAnon; the single result is stored through the first argument
 		r, out, ok := e.intrinsicCallAnon(st, args[1:], pos)
 		if !ok || out == nil {
